@@ -498,7 +498,7 @@ def run_case(seed, task, tier):
     idx = task['case']
     lines, objs, used_harvest = build_pool(seed, idx)
     out = {'executions': 0, 'signatures': [], 'violations': [], 'probes': {}, 'faults': {}, 'steps': 0}
-    n_examples = 12 if tier == 'quick' else 40
+    n_examples = 30 if tier == 'quick' else 60
     trace_box = [None]
     stats_box = []
     with cvcase.Scratch('c13_') as wd:
